@@ -334,6 +334,10 @@ func readCompressedJSONLinesFromReader[T any](reader io.Reader, codec Compressio
 		var record T
 		decoder := json.NewDecoder(bytes.NewReader(line))
 		decoder.DisallowUnknownFields()
+
+		// Property values are decoded into untyped containers. Without this every number becomes a float64 and integers
+		// beyond 2^53 come back changed; the consumers turn the numbers into int64 or float64 with fragmentProperties
+		decoder.UseNumber()
 		if err := decoder.Decode(&record); err != nil {
 			decodeErr = fmt.Errorf("decode JSONL record %d: %w", count+1, err)
 			break
